@@ -299,7 +299,8 @@ def build_vh(family, tags=("verif",), cgo=True, name=None, pkg=None, race=False)
     if name is None:
         name = "vh_%s-" % family + hashlib.sha1(repr(key).encode()).hexdigest()[:8]
     out = os.path.join(bindir(), name)
-    cmd = ["go", "build", "-o", out]
+    tmp_out = "%s.tmp%d" % (out, os.getpid())      # built aside and renamed: concurrent checks share the directory
+    cmd = ["go", "build", "-o", tmp_out]
     if REPO != "/repo":
         # checks can be pointed at a scratch worktree (VERIF_REPO) without touching /repo or harness/go.mod
         alt = os.path.join(bindir(), name + ".mod")
@@ -323,6 +324,7 @@ def build_vh(family, tags=("verif",), cgo=True, name=None, pkg=None, race=False)
     p = subprocess.run(cmd, cwd=HARNESS, stdout=subprocess.PIPE, stderr=subprocess.STDOUT, text=True, env=env)
     if p.returncode != 0:
         raise MachineryError("harness build failed (tags=%s cgo=%s):\n%s" % (tags, cgo, p.stdout[-4000:]))
+    os.replace(tmp_out, out)
     _BIN_CACHE[key] = out
     return out
 
